@@ -141,6 +141,22 @@ def gen_header(ch, nfields=None, parent=None, tiny=False, max_cb=600):
     return {"raw": raw, "fields": fields, "nfields": nfields, "full_cb": full_cb}
 
 
+def twin_header(ch, hdr, max_cb=600):
+    """Same hashed fields (so the same block hash), another merkle proof and coinbase transaction:
+    what a client sends when it retries a header with a corrected merge-mining proof."""
+    if hdr["nfields"] not in (19, 20):
+        return hdr
+    fields = list(hdr["fields"][:-2])
+    proof = ch.bytes(32 * ch.pick([0, 1, 3, 12], "twin.proof.n"), "twin.proof")
+    cblen = ch.pick([65, 128, 129, 200, 64 * 3, max_cb], "twin.cb.len")
+    full_cb = ch.bytes(cblen, "twin.cb")
+    split = 64 * ch.draw((cblen - 1) // 64 + 1, "twin.cb.split")
+    fields.append(proof)
+    fields.append(compress_coinbase(full_cb, split))
+    raw, _ = rlp_list(fields)
+    return {"raw": raw, "fields": fields, "nfields": hdr["nfields"], "full_cb": full_cb}
+
+
 def mm_payload_len(hdr):
     n = hdr["nfields"]
     base = hdr["fields"][:-3] if n in (19, 20) else hdr["fields"][:-1]
